@@ -1,5 +1,12 @@
 # per-property configuration of bin/check
 PROPS = {
+ "C09": {
+  "kind_tokens": 3, "configs": ["default", "noadx", "purego"],
+  "rule": "the C01 op lines (all 23 fields; mul/square/add/sub/double/neg/halve/butterfly/small multiples on the boundary lattice and random operands; vector add/sub/mul/scalarmul/sum/innerproduct of every length 0..4*16+5 (thorough 8*16+7) plus lengths around 112/128/256/1024, sub-slice offsets 1 and 3) are answered by three configurations {default assembly, ADX/BMI2 disabled through the cpu-switch overlay, -tags purego}; each configuration's stream is diffed against the same Lean model stream; distinct = distinct op lines",
+  "trusted": ["hooks/mkoverlay.py (derives the GV_NOADX / GV_NOAVX512 switches from utils/cpu on every run; build tag verif; nothing written into /repo)", "tools/harness/field.go",
+              "modelled not verified: every assembly body (only corresponded); AVX-512 kernels cannot execute on this sandbox CPU (no avx512vbmi2), so cpu.SupportAVX512 is false in every configuration here and those kernels are NOT exercised"],
+  "assumptions": ["kernel block contract (hypothesis hk of C09_zipGlue/mapGlue/foldGlue)"],
+ },
  "C01": {
   "kind_tokens": 3,
   "rule": "for each of the 23 field packages: every unary op on the boundary lattice (0,1,2,q-1,q-2,(q±1)/2,R mod q ±1,2^(w·i)±1,2^(w·i-1), q with one limb perturbed/saturated/zeroed, random), binary ops on lattice×lattice (strided in quick) + random pairs, exponents {0,±1,±2,±(q-1),±q,q-2,2^63,2^64±,2^300,random up to 3000 bits, negative}, squares/non-squares, batch inversion and vector ops of every length 0..L with zeros; raw Montgomery limbs compared; distinct = distinct op lines",
